@@ -10,10 +10,11 @@ class C09(Check):
     pid = 'C09'
     validate = True
     anchors = [('src/fast_ticc/main_loop.py', 'fit_stacked_data'), ('src/fast_ticc/main_loop.py', '_init_task_pool')]
-    obligations = ['rounds_between_one_and_limit', 'phase_order_and_dataflow', 'stops_iff_two_consecutive_rounds_agree',
+    obligations = ['every_phase_sees_the_users_hyperparameters', 'rounds_between_one_and_limit', 'phase_order_and_dataflow', 'stops_iff_two_consecutive_rounds_agree',
                    'returns_last_round', 'metrics_on_returned_state', 'pool_created_once_and_released',
                    'nonpositive_limit_rejected']
     obligation_text = {
+        'every_phase_sees_the_users_hyperparameters': 'in every round (also after a real repopulation event) the state handed to statistics / optimise / relabel carries the caller\'s hyper-parameters unchanged in value (beta, lambda, eps, m, K, W, estimator flag)',
         'rounds_between_one_and_limit': '1 <= executed rounds <= iteration_limit',
         'phase_order_and_dataflow': 'each round is [repopulate if round>0] -> statistics -> optimise -> relabel, every phase receiving the previous phase\'s output state',
         'stops_iff_two_consecutive_rounds_agree': 'the loop ends after round j < limit-1 iff the labellings of rounds j and j-1 are equal; round 0 is never compared with the initial labelling',
@@ -39,7 +40,8 @@ class C09(Check):
         q = tier == 'quick'
         return [Config('loop', self.loop, {'P': 2 if q else 3, 'K': 2, 'limmax': 3 if q else 5}, split=4,
                        witness_every=3),
-                Config('bad_limit', self.bad_limit, {})]
+                Config('bad_limit', self.bad_limit, {}),
+                Config('with_repopulation', self.with_repopulation, {'limmax': 3}, split=3)]
 
     def bad_limit(self, c):
         Rp = self.R
@@ -55,6 +57,43 @@ class C09(Check):
                 raised = exc
         c.notes.update({'limit': int(lim), 'bad': True})
         c.prove('nonpositive_limit_rejected', raised is not None and not ml.trace and not ml.pools)
+
+    def with_repopulation(self, c, limmax):
+        """Round 0 relabels everything into cluster 0, so round 1 starts with a REAL repopulation
+        event; hyper-parameters are symbolic and pairwise distinct."""
+        Rp = self.R
+        K, P = 2, 4
+        lim = int(c.int('limit', 2, limmax))
+        lam, beta, eps = c.real('lam', 0), c.real('beta', 0), c.real('eps', 0)
+        c.assume(z3.And(R(lam) != R(beta), R(lam) != R(eps), R(beta) != R(eps)))
+        data = np.zeros((P, 1))
+        args = Rp.arguments.UserArguments(sparsity_weight=lam, iteration_limit=lim, label_switching_cost=beta,
+                                          min_cluster_size=1, min_meaningful_covariance=eps, num_clusters=K,
+                                          num_processors=1, window_size=1, biased_covariance=True)
+        stubs.install_linalg(norm=stubs.NormOracle('spread'))
+        ml = MainLoop(Rp, c, K, 1, modes={'initial': 'summary', 'repopulate': 'real'},
+                      label_hook=lambda r, T: [0] * T if r % 2 == 0 else [i % K for i in range(T)])
+        ml.s_initial = lambda k, d: [i % K for i in range(len(d))]
+        old_random = Rp.cm.random
+        Rp.cm.random = stubs.StubRandom()
+        try:
+            with ml:
+                ok, res = guarded(c, 'every_phase_sees_the_users_hyperparameters', Rp.main_loop.fit_stacked_data,
+                                  args, data)
+        finally:
+            Rp.cm.random = old_random
+        if not ok:
+            return
+        c.notes.update({'limit': lim, 'P': P, 'K': K, 'kind': 'with_repopulation'})
+        f = [any(t[1] == 'repopulate' and t[3] is not t[2] for t in ml.trace)]
+        for t in ml.trace:
+            if t[1] in ('statistics', 'optimise', 'relabel', 'repopulate') and t[2] is not None:
+                a = t[2].arguments
+                f += [stubs.same_terms(a.sparsity_weight, lam), stubs.same_terms(a.label_switching_cost, beta),
+                      stubs.same_terms(a.min_meaningful_covariance, eps), a.min_cluster_size == 1,
+                      a.num_clusters == K, a.window_size == 1, a.biased_covariance is True,
+                      a.iteration_limit == lim]
+        c.prove('every_phase_sees_the_users_hyperparameters', conj(f))
 
     def loop(self, c, P, K, limmax):
         Rp = self.R
